@@ -394,7 +394,8 @@ class Task(object):
                 parsed_options, args = taskcmd.parse(args)
                 self.options.update(parsed_options)
 
-            return args
+        # options already initialized: `args` are returned untouched
+        return args
 
     def _init_getargs(self):
         """task getargs attribute define implicit task dependencies"""
